@@ -30,6 +30,7 @@ Record PackedOk (O : oracles) (now : Z) (st : att_stmt) (auth_data cdj cred_pk :
         Signed O pk (fld (st_alg st)) (fld (st_sig st)) (att_to_be_signed O auth_data cdj)) }.
 
 Record U2fOk (O : oracles) (now : Z) (st : att_stmt) (cdj rp_hash cred_id cred_pk aaguid : bytes) (roots : list bytes) : Prop := {
+  u_sig : unset (st_sig st) = false;
   u_one_cert : exists der c, x5c_list (fld (st_x5c st)) = Ok [der] /\ validate_chain O now [der] roots = Ok tt /\
       load_cert O der = Ok c /\
       (exists x y, c_key c = PkEC 1 x y) /\                         (* P-256 EC leaf *)
@@ -42,6 +43,8 @@ Record U2fOk (O : oracles) (now : Z) (st : att_stmt) (cdj rp_hash cred_id cred_p
 
 Record TpmOk (O : oracles) (now : Z) (st : att_stmt) (auth_data cdj cred_pk : bytes) (roots : list bytes) : Prop := {
   t_ver : fld (st_ver st) = CText (s2l "2.0");
+  t_members : unset (st_cert_info st) = false /\ unset (st_pub_area st) = false /\ unset (st_alg st) = false /\
+              unset (st_x5c st) = false /\ unset (st_sig st) = false;
   t_body : exists x5c pa_raw ci_raw pa dk ci c ph,
       x5c_list (fld (st_x5c st)) = Ok x5c /\ validate_chain O now x5c roots = Ok tt /\
       fld (st_pub_area st) = CBytes pa_raw /\ fld (st_cert_info st) = CBytes ci_raw /\
@@ -73,6 +76,7 @@ Record AikOk (c : cert) : Prop := {
   k_not_ca : c_basic_ca c = Some false }.
 
 Record AppleOk (O : oracles) (now : Z) (st : att_stmt) (auth_data cdj cred_pk : bytes) (roots builtin : list bytes) : Prop := {
+  a_x5c : unset (st_x5c st) = false;
   a_body : exists x5c c v dk pk,
       x5c_list (fld (st_x5c st)) = Ok x5c /\ validate_chain O now x5c (roots ++ builtin) = Ok tt /\
       load_cert O (hd_bytes x5c) = Ok c /\ c_apple_ext c = Some v /\
@@ -80,6 +84,7 @@ Record AppleOk (O : oracles) (now : Z) (st : att_stmt) (auth_data cdj cred_pk : 
       decode_credential_public_key cred_pk = Ok dk /\ to_crypto O dk = Ok pk /\ c_spki c = o_spki O pk }.
 
 Record AndroidKeyOk (O : oracles) (now : Z) (st : att_stmt) (auth_data cdj cred_pk : bytes) (roots builtin : list bytes) : Prop := {
+  ak_members : unset (st_sig st) = false /\ unset (st_alg st) = false /\ unset (st_x5c st) = false;
   ak_body : exists x5c rootc c dk pk kd,
       x5c_list (fld (st_x5c st)) = Ok x5c /\ load_cert O (last_bytes x5c) = Ok rootc /\
       validate_chain O now (removelast x5c) [c_pem rootc] = Ok tt /\
@@ -92,8 +97,11 @@ Record AndroidKeyOk (O : oracles) (now : Z) (st : att_stmt) (auth_data cdj cred_
       kd_tee_origin kd = Some 0 /\ kd_tee_purpose kd = Some [2] }.
 
 Record SafetyNetOk (O : oracles) (now : Z) (st : att_stmt) (auth_data cdj : bytes) (roots builtin : list bytes) : Prop := {
-  sn_body : exists resp p0 p1 p2 hb hj pb pj x5c c sg ts cn cns,
-      fld (st_response st) = CBytes resp /\ split_dot resp [] = [p0; p1; p2] /\
+  sn_members : unset (st_ver st) = false /\ unset (st_response st) = false;
+  sn_body : exists resp p0 p1 p2 hb hj pb pj x5c_txt x5c c sg ts cn cns,
+      fld (st_response st) = CBytes resp /\ is_ascii resp = true /\ split_dot resp [] = [p0; p1; p2] /\
+      (* the certificates are the JWS header's x5c, the timestamp the payload's timestampMs *)
+      sn_x5c_txt hj = Ok x5c_txt /\ map_res b64url_dec x5c_txt = Ok x5c /\ sn_timestamp pj = Ok ts /\
       b64url_dec p0 = Ok hb /\ loads_obj O hb = Ok hj /\ b64url_dec p1 = Ok pb /\ loads_obj O pb = Ok pj /\
       (* payload.nonce (default "") is the padded standard base64 of SHA-256(authData || clientDataHash) *)
       match jget pj (s2l "nonce") with Some v => v | None => JStr [] end
